@@ -38,7 +38,7 @@ MARK = "mk0"
 
 POSITIONS = ["select_bare", "select_vw", "where_eq", "in_list", "between", "like", "having", "join_on", "insert_row", "replace_row", "set_value",
              "fn_arg", "case_when", "case_then", "case_else", "tuple_elem", "array_elem", "json_term", "column_default", "do_update", "upsert_where"]
-FAMILY = {"select_bare": "wrapper_cls", "set_value": "wrapper_cls", "select_vw": "explicit_vw", "do_update": "explicit_vw",
+FAMILY = {"select_bare": "wrapper_cls", "set_value": "wrapper_cls", "select_vw": "explicit_vw",
           "json_term": "json_term", "column_default": "column_default"}
 
 T = ["src", "T"]
@@ -199,7 +199,7 @@ def applicable(pos, v):
         return False
     if pos == "json_term":
         return k in ("json", "str")
-    if k == "json" and isinstance(v, list) and pos not in ("json_term", "select_vw", "column_default", "do_update"):
+    if k == "json" and isinstance(v, list) and pos not in ("json_term", "select_vw", "column_default"):
         return False  # a raw list/tuple is an Array/Tuple of values by contract, not one JSON value
     if k == "none" and pos in ("do_update",):
         return False  # do_update(field, None) means "use EXCLUDED"
